@@ -14,13 +14,17 @@ The lock comes from a factory (`LOCKS`); the oracle (`judge_events`,
 results, so another lock kind or a cross-process driver can reuse both.
 """
 import asyncio
+import fcntl
 import itertools
 import os
+import pickle
 import struct
 
-from mc import bussim, coe, core, explore, vloop
+from mc import bussim, coe, core, explore, simos, vloop
 
+import ebpfcat.ebpfcat as ecat_mod
 import ebpfcat.ethercat as ecmod
+import ebpfcat.lock as lock_mod
 from ebpfcat.ethercat import EtherCat, Terminal
 
 PROP = "C15"
@@ -139,6 +143,27 @@ def judge_results(conf, results, server):
 
 
 # ------------------------------------------------------------------ execution
+def new_terminal(n_users, station):
+    """ESC model with mailbox + CoE server; -> (terminal, server, event list
+    ('in', mail) / ('out', mail) / ('fetch',) in terminal order)"""
+    t = bussim.Terminal("t", station=station)
+    coe.configure_mailbox(t, OUT_OFF, OUT_SZ, IN_OFF, IN_SZ)
+    coe.esc_mailbox_rules(t)
+    server = make_server(n_users)
+    t.mbx_handler = server
+    events = t.mbx_log
+    orig_read = t.read
+
+    def read(ado, n):
+        full = t.mem[0x80d] & 8
+        r = orig_read(ado, n)
+        if full and not t.mem[0x80d] & 8:
+            events.append(("fetch",))
+        return r
+    t.read = read
+    return t, server, events
+
+
 async def program(term, u, prog):
     out = []
     for j, kind in enumerate(prog, 1):
@@ -156,21 +181,7 @@ def execute(ch, conf, lock_name, k=K):
     tasks, warm = conf
     loop = vloop.VLoop()
     with loop:
-        t = bussim.Terminal("t", station=11)
-        coe.configure_mailbox(t, OUT_OFF, OUT_SZ, IN_OFF, IN_SZ)
-        coe.esc_mailbox_rules(t)
-        server = make_server(len(tasks))
-        t.mbx_handler = server
-        events = t.mbx_log
-        orig_read = t.read
-
-        def read(ado, n):
-            full = t.mem[0x80d] & 8
-            r = orig_read(ado, n)
-            if full and not t.mem[0x80d] & 8:
-                events.append(("fetch",))
-            return r
-        t.read = read
+        t, server, events = new_terminal(len(tasks), 11)
         m = bussim.Master(bussim.Bus([t]), lambda: EtherCat("sim"), loop)
         term = Terminal(m.ec)
         term.position = 11
@@ -344,6 +355,419 @@ def selftest_oracle():
         "request written inside another user's exchange"
 
 
+# =====================================================================
+# cross-process half: participants are simulated processes (mc/simos.py)
+# =====================================================================
+X_IF = "eth0"
+X_RANGE = (1000, 1008)          # EtherCat.terminal_addr_range: 8-byte file
+X_LOCKFILE = f"/run/ebpf/{X_IF}"
+KF_WINDOW = "C15-lockfile-create-init-window"
+
+
+class Starved(Exception):
+    """harness: the terminal did not answer within the poll budget"""
+
+
+class SimFuture:
+    """stands in for asyncio.Future inside ebpfcat.ethercat: the datagram is
+    answered while EtherCat.roundtrip queues it, awaiting never suspends"""
+
+    def __init__(self):
+        self._state = None
+
+    def set_result(self, r):
+        self._state = (True, r)
+
+    def set_exception(self, e):
+        self._state = (False, e)
+
+    def done(self):
+        return self._state is not None
+
+    def __await__(self):
+        if self._state is None:
+            raise simos.SimBug("datagram future awaited before it was "
+                               "answered")
+        ok, v = self._state
+        if not ok:
+            raise v
+        return v
+        yield       # noqa: a generator function
+
+
+class Shared:
+    """the one terminal all participants talk to"""
+
+    def __init__(self, n_users, station, latency):
+        self.t, self.server, self.events = new_terminal(n_users, station)
+        self.station = station
+        self.t.mbx_latency = lambda term: latency
+        self.budget = latency + 3
+        self.empty_polls = {}
+        self.ev_steps = []      # scheduler step at which events[i] happened
+
+    def access(self, run, pid, cmd, pos, offset, out):
+        """one datagram; -> returned data, None = working counter 0"""
+        try:
+            if pos != self.station:
+                return None
+            if cmd is ecmod.ECCmd.FPRD:
+                data = self.t.read(offset, len(out))
+                if data is not None and offset <= 0x80d < offset + len(out):
+                    if data[0x80d - offset] & 8:
+                        self.empty_polls[pid] = 0
+                    else:
+                        n = self.empty_polls[pid] = \
+                            self.empty_polls.get(pid, 0) + 1
+                        if n > self.budget:
+                            raise Starved(f"no mail after {n} polls")
+                return data
+            if cmd is ecmod.ECCmd.FPWR:
+                return out if self.t.write(offset, out) else None
+            raise simos.SimBug(f"datagram {cmd} not modelled")
+        finally:
+            while len(self.ev_steps) < len(self.events):
+                self.ev_steps.append(run.nsteps)
+
+    def digest(self):
+        t = self.t
+        return core.digest([
+            [(a, d.hex()) for a, d in t.write_log],
+            [(e[0],) + tuple(x.hex() for x in e[1:]) for e in self.events],
+            bytes(t.mem[0x800:0x810]).hex(), t._mbx_wait,
+            [m.hex() for m in t.mbx_out_queue],
+            sorted(self.empty_polls.items())])
+
+
+class BusQueue:
+    """stands in for EtherCat.send_queue: the real EtherCat.roundtrip packs
+    the datagram and unpacks the answer, the access itself happens on the
+    shared terminal model and is one scheduling point"""
+
+    def __init__(self, shared):
+        self.shared = shared
+
+    def put_nowait(self, item):
+        cmd, out, idx, pos, offset, future = item
+        rt = simos.current()
+        pid = rt.pid()
+        try:
+            data = rt.syscall(
+                "bus", (cmd.name, offset, bytes(out)),
+                lambda: self.shared.access(rt, pid, cmd, pos, offset,
+                                           bytes(out)))
+        except Starved as e:
+            future.set_exception(e)
+            return
+        if data is None:
+            future.set_exception(
+                ecmod.EtherCatError("datagram was not processed"))
+        else:
+            future.set_result(data)
+
+
+class XRun(simos.Run):
+    """the shared terminal is part of the state"""
+
+    def key_and_renaming(self):
+        k, r = super().key_and_renaming()
+        return core.digest([k, self.params["shared"].digest()]), r
+
+
+def _where(e):
+    """innermost ebpfcat frame of a traceback: 'file.py:function'"""
+    tb, out = e.__traceback__, "?"
+    while tb is not None:
+        fn = tb.tb_frame.f_code.co_filename
+        if os.sep + "ebpfcat" + os.sep in fn:
+            out = f"{os.path.basename(fn)}:{tb.tb_frame.f_code.co_name}"
+        tb = tb.tb_next
+    return out
+
+
+def x_body(rt):
+    prm = rt.params
+    u = rt.pid()
+    sh = prm["shared"]
+    try:
+        ec = ecat_mod.ParallelEtherCat(X_IF)
+        ec.terminal_addr_range = X_RANGE
+        ec.send_queue = BusQueue(sh)
+        if prm["how"][u] == "unpickle":
+            # a spawned child receives the pickled LockFile: __setstate__
+            ec.mbx_lock_file = pickle.loads(prm["blob"])
+        else:
+            # the statement in ParallelEtherCat.run that creates it
+            ec.mbx_lock_file = lock_mod.LockFile(
+                f'/run/ebpf/{ec.addr[0]}', *ec.terminal_addr_range)
+        term = Terminal(ec)
+        term.position = sh.station
+        # as Terminal.initialize / gentle_initialize do
+        term.mbx_lock = ec.get_mbx_lock(term.position)
+        term.mbx_out_off, term.mbx_out_sz = OUT_OFF, OUT_SZ
+        term.mbx_in_off, term.mbx_in_sz = IN_OFF, IN_SZ
+        return ["ok", simos.drive(program(term, u, prm["progs"][u]))]
+    except Exception as e:
+        return ["raise", type(e).__name__, _where(e), str(e)[:80]]
+
+
+def _good(ev):
+    r = ev[-1]
+    return not (isinstance(r, list) and r[:1] == ["!"])
+
+
+def _kf_window(log, pid, step=None):
+    """the documented window of LockFile.__init__: a process created the lock
+    file with O_EXCL at step i and writes its initial content at step k (or
+    never: it crashed); this participant's pread of the counter at step j,
+    i < j < k, returned nothing"""
+    j = None
+    for ev in log:
+        if ev[1] == pid and ev[2] == "pread" and ev[4] == "b:":
+            j = ev[0]
+    if j is None:
+        return None
+    created = {}
+    for ev in log:
+        st, q, name, args = ev[:4]
+        if q == pid or not _good(ev) or st > j:
+            continue
+        if name == "open" and args[0] == X_LOCKFILE \
+                and isinstance(args[1], int) and args[1] & os.O_EXCL:
+            created[q] = ev[4]
+        elif name == "write" and q in created and args[0] == created[q]:
+            del created[q]
+    return KF_WINDOW if created else None
+
+
+def _void_users(run):
+    """{user: step} of participants that crashed inside an exchange before
+    writing the counter back: their mails since `step` do not count"""
+    out = {}
+    for p in run.procs:
+        if p.status != "crashed":
+            continue
+        s0 = committed = None
+        for st, name, args, r in p.events:
+            good = not (isinstance(r, list) and r[:1] == ["!"])
+            if name == "lockf" and good:
+                if args[1] & fcntl.LOCK_UN:
+                    s0 = None
+                else:
+                    s0, committed = st, False
+            elif name == "pwrite" and good and s0 is not None:
+                committed = True
+        if s0 is not None and not committed:
+            out[p.pid] = s0
+    return out
+
+
+def x_monitor(run):
+    prm = run.params
+    sh = prm["shared"]
+    out = []
+    void = _void_users(run)
+    events = sh.events
+    if void:
+        # crash inside an exchange: the unfinished exchange is void; only
+        # the counters of the remaining mails are judged
+        events = [e for e, st in zip(sh.events, sh.ev_steps)
+                  if e[0] == "in" and not (message_user(e[1]) in void and
+                                           st > void[message_user(e[1])])]
+    v = judge_events(events)
+    if v:
+        out.append(dict(inv="exchange", kind=v[0], who=[],
+                        expected=v[1], observed=v[2]))
+    # every byte of the lock file except the terminal's own keeps its value
+    node = None
+    try:
+        node = run.world._walk(X_LOCKFILE)[2]
+    except OSError:
+        pass
+    if node is not None:
+        own = sh.station - X_RANGE[0]
+        init = prm["content"] or bytes(X_RANGE[1] - X_RANGE[0])
+        bad = [i for i, b in enumerate(node.data)
+               if i != own and (i >= len(init) or b != init[i])]
+        if bad:
+            out.append(dict(inv="neighbours", kind="counter of another "
+                            "terminal changed", who=[],
+                            expected=init.hex(),
+                            observed=bytes(node.data).hex()))
+    # every participant that starts obtains a valid counter / completes
+    for p in run.procs:
+        o = p.outcome
+        if o is None or o[0] != "ok":
+            if o is not None and o[0] == "exc":
+                raise core.Internal(f"participant body raised {o}")
+            continue
+        val = o[1]
+        if val[0] == "raise":
+            inlock = val[2].startswith("lock.py")
+            if void and not inlock:
+                continue    # consequence of the crashed participant's mail
+            out.append(dict(
+                inv="participant", who=[p.pid],
+                kind=f"{val[1]} out of {val[2]}",
+                expected="every participant obtains a valid counter and "
+                         "completes its exchanges",
+                observed=f"participant {p.pid}: {val[1]}: {val[3]} "
+                         f"(in {val[2]})",
+                kf=_kf_window(run.log, p.pid)
+                if val[1] == "ValueError" and val[2] == "lock.py:__aenter__"
+                else None))
+    if run.terminal() and not out and not any(
+            p.status == "crashed" for p in run.procs):
+        results = [tuple(p.outcome[1]) for p in run.procs]
+        v = judge_results((prm["progs"], 0), results, sh.server)
+        if v is None and sh.server.protocol_errors:
+            v = ("terminal rejects a mail", [],
+                 [list(e) for e in sh.server.protocol_errors])
+        if v:
+            out.append(dict(inv="results", kind=v[0], who=[], expected=v[1],
+                            observed=v[2]))
+    return out
+
+
+def x_describe(run):
+    alive = run.parked()
+    node = None
+    try:
+        node = run.world._walk(X_LOCKFILE)[2]
+    except OSError:
+        pass
+    return dict(nontrivial=len(alive) >= 2 and (
+        bool(run.world.locks) or (node is not None and not node.data)))
+
+
+def x_space(name, progs, how, initial, latency, preempt, crashes, seed,
+            cap=None):
+    """progs[u]: exchanges of participant u; how[u]: 'init' | 'unpickle';
+    initial: None (no lock file yet) or the counter an earlier session left
+    in the file; latency: polls before the terminal answers"""
+    station = X_RANGE[0] + (5 + seed) % (X_RANGE[1] - X_RANGE[0])
+    progs = tuple(tuple(p) for p in progs)
+    content = None
+    if initial is not None:
+        content = bytearray((i + seed) % 7 + 1
+                            for i in range(X_RANGE[1] - X_RANGE[0]))
+        content[station - X_RANGE[0]] = initial
+        content = bytes(content)
+    params = dict(progs=progs, how=list(how), initial=initial,
+                  latency=latency, preempt=preempt, crashes=crashes,
+                  seed=seed, station=station)
+    lf = lock_mod.LockFile.__new__(lock_mod.LockFile)
+    lf.filename, lf.minimum, lf.maximum = X_LOCKFILE, *X_RANGE
+    blob = pickle.dumps(lf)
+
+    def factory():
+        w = simos.World(["/run"])
+        if content is not None:
+            w.makedirs(9, "/run/ebpf", exist_ok=True)
+            fd = w.open(9, X_LOCKFILE, os.O_CREAT | os.O_RDWR)
+            w.write(9, fd, content)
+            w.exit_process(9)
+        sh = Shared(len(progs), station, latency)
+        return XRun(w, [x_body] * len(progs),
+                    params=dict(shared=sh, progs=progs, how=list(how),
+                                blob=blob, content=content))
+    return simos.Space(name, factory, x_monitor, preempt=preempt,
+                       crashes=crashes, params=params, describe=x_describe,
+                       state_cap=cap)
+
+
+def x_space_from_params(name, p):
+    return x_space(name, p["progs"], p["how"], p["initial"], p["latency"],
+                   p["preempt"], p["crashes"], p["seed"])
+
+
+def x_spaces(ctx):
+    s = ctx.seed
+    I, U = "init", "unpickle"
+    if ctx.quick:
+        sp = [x_space("x2-fresh-1ex", ["r", "w"], [I, I], None, 0, None, 0,
+                      s),
+              x_space("x2-existing7-1ex", ["o", "r"], [I, U], 7, 1, None, 0,
+                      s)]
+    else:
+        sp = [x_space("x2-fresh-2ex", ["rw", "or"], [I, I], None, 1, None,
+                      0, s),
+              x_space("x2-existing6-2ex", ["wr", "ro"], [I, U], 6, 0, None,
+                      0, s),
+              x_space("x2-fresh-1ex-crash1", ["r", "w"], [I, I], None, 0,
+                      None, 1, s),
+              x_space("x2-existing7-2ex-crash1", ["rw", "wr"], [U, I], 7, 0,
+                      None, 1, s),
+              x_space("x3-fresh-1ex-preempt2", ["r", "w", "o"], [I, I, U],
+                      None, 0, 2, 0, s),
+              x_space("x3-existing-1ex-preempt2-crash1", ["r", "w", "r"],
+                      [I, U, I], 1 + (4 + s) % 7, 0, 2, 1, s)]
+    only = os.environ.get("C15_SPACES")       # development aid
+    if only:
+        sp = [x for x in sp if x.name in only.split(",")]
+    return sp
+
+
+_SEAMS = None
+
+
+def x_install():
+    global _SEAMS
+    if _SEAMS is None:
+        _SEAMS = simos.Seams()
+        simos.install_ebpfcat(_SEAMS, ebpfcat_mod=False)
+        _SEAMS.set(ecmod, "Future", SimFuture)
+
+
+def x_uninstall():
+    global _SEAMS
+    if _SEAMS is not None:
+        _SEAMS.restore()
+        _SEAMS = None
+
+
+def run_cross(ctx, res):
+    diffs = simos.conformance()
+    if diffs:
+        raise core.Internal("simos does not conform to the real OS: "
+                            + "; ".join(diffs[:5]))
+    x_install()
+    try:
+        per = {}
+        tot = dict(states=0, transitions=0, executions=0)
+        for sp in x_spaces(ctx):
+            a = simos.execute(sp, [])
+            b = simos.execute(sp, [])
+            if a["digest"] != b["digest"]:
+                raise core.Internal(f"{sp.name}: initial state is not "
+                                    "deterministic")
+            st = simos.explore(ctx, sp, res)
+            st["confirmed_replays"] = simos.confirm(sp, res)
+            per[sp.name] = st
+            for k in tot:
+                tot[k] += st[k]
+        res.cov["crossprocess_states"] = tot["states"]
+        res.cov["crossprocess_transitions"] = tot["transitions"]
+        res.cov["crossprocess_executions"] = tot["executions"]
+        res.cov["crossprocess_spaces"] = per
+        res.cov["crossprocess_bound_completed"] = {
+            sp.name: dict(
+                participants=len(sp.params["progs"]),
+                exchanges=["".join(p) for p in sp.params["progs"]],
+                lock_file=("created by the participants"
+                           if sp.params["initial"] is None else
+                           f"exists, counter {sp.params['initial']}"),
+                obtained=sp.params["how"], latency=sp.params["latency"],
+                preemptions=("unbounded (all interleavings)"
+                             if sp.preempt is None else sp.preempt),
+                crashes=sp.crashes, completed=per[sp.name]["complete"])
+            for sp in x_spaces(ctx)}
+        res.cov["simos_conformance"] = "passed"
+    finally:
+        x_uninstall()
+    return tot
+
+
 def run(ctx):
     try:
         stats = coe.selftest(os.path.dirname(os.path.dirname(ecmod.__file__)))
@@ -368,8 +792,17 @@ def run(ctx):
     items = [items[i] for i in sorted(range(len(items)),
                                       key=lambda i: (i % 31, i))]
     res = core.pmap(ctx, work, items, chunk=1)
-    res.cov["states"] = len(res.nontrivial)
-    res.cov["traces_validated_against_impl"] = res.cov.get("evaluations", 0)
+    res.cov["inprocess_executions"] = res.cov.get("evaluations", 0)
+    res.cov["inprocess_frames"] = res.cov.get("transitions", 0)
+    res.cov["inprocess_distinct_nontrivial"] = len(res.nontrivial)
+    cross = run_cross(ctx, res)
+    res.cov["states"] = res.cov["inprocess_distinct_nontrivial"] \
+        + cross["states"]
+    res.cov["transitions"] = res.cov["inprocess_frames"] \
+        + cross["transitions"]
+    res.cov["evaluations"] = res.cov["inprocess_executions"] \
+        + cross["executions"]
+    res.cov["traces_validated_against_impl"] = res.cov["evaluations"]
     res.cov["configurations"] = len(items)
     res.cov["bound_completed"] = bound
     res.cov["lock_kinds"] = sorted(LOCKS)
@@ -390,7 +823,30 @@ def run(ctx):
     return res
 
 
+def replay_cross(ctx, rep):
+    c = rep["case"]
+    x_install()
+    try:
+        sp = x_space_from_params(c["space"], c["params"])
+        out = simos.execute(sp, c["schedule"])
+        again = simos.execute(sp, c["schedule"])
+        if out["digest"] != again["digest"]:
+            raise core.Internal("replay is not deterministic")
+    finally:
+        x_uninstall()
+    print(f"space {c['space']} {c['params']}")
+    for st, pid, name, args, r in out["trace"]:
+        print(f"  step {st:3} process {pid}: {name}{tuple(args)!r} -> {r!r}")
+    print("  final:", out["pending"], "outcomes", out["outcomes"])
+    res = core.Result()
+    for v in out["violations"]:
+        simos._report(sp, res, v, c["schedule"][:v["at_choice"]])
+    return res.violations
+
+
 def replay(ctx, rep):
+    if "space" in rep["case"]:
+        return replay_cross(ctx, rep)
     res = core.Result()
     c = rep["case"]
     conf = (tuple(tuple(p) for p in c["conf"][0]), c["conf"][1])
